@@ -10,10 +10,10 @@ TARGETS = ["ovniemu", "emu", "ovni-static"]
 LEVEL = "exploration"
 RULE = ("(a) version.h in process: all (want, have) over {0,1,2,10}^3 x {0,1,2,10}^3 (4096 pairs): compatible iff "
         "same major and want.minor <= have.minor; well-formed strings (with -suffix) parse to their numbers, clearly "
-        "malformed ones (missing component, non-numeric, negative, empty, >= 64 chars) are refused.  (b) runtime: "
+        "malformed ones (missing component, non-numeric, hex digits, negative, empty, >= 64 chars) and major/minor numbers beyond the range of an int are refused.  (b) runtime: "
         "ovni_version_check_str and ovni_thread_require over versions around the library's own and malformed strings: "
-        "returns iff compatible / well-formed, otherwise aborts with a diagnostic.  (c) emulator: for each of the 8 "
-        "models traces requiring versions around the advertised one are accepted iff compatible, also when several streams require different versions of one model (every stream counts); for all 128 subsets "
+        "returns iff compatible / well-formed, otherwise aborts with a diagnostic; sequences of checks in one process (each decided on its own); 2-16 threads checking compatible versions concurrently.  (c) emulator: for each of the 8 "
+        "models traces requiring versions around the advertised one are accepted iff compatible, also when several streams require different versions of one model (every stream counts), requirement sets spread over 2-3 streams (a model is enabled when some stream requires it, wherever that stream sorts); for all 128 subsets "
         "of required non-ovni models one probe event per model is accepted iff its model is in the subset; with -a "
         "every probe is accepted.  Exhaustive over the stated domains; non-trivial = want != have.")
 ASSUMPTIONS = ["ambiguous spellings (leading blanks, '+1', extra dotted components) are generated only in the random part and not asserted",
